@@ -15,10 +15,21 @@ def main():
 
     for n in ("pymc", "pytensor"):
         logging.getLogger(n).setLevel(logging.ERROR)
+    if len(sys.argv) > 1 and sys.argv[1] == "--make-cross":
+        return make_cross(*sys.argv[2:7])
     path = sys.argv[1]
     expect_clean = "--expect-clean" in sys.argv
     with open(path) as f:
         program = json.load(f)
+    if "--emit-out" in sys.argv:
+        from sim import runner
+
+        check = runner.load_check(program["property"])
+        res = runner.run_program(program, check)
+        print("OUT-DIGESTS " + json.dumps({"out": res.get("op_out_digests"), "plan": res.get("plan_digest"), "err": res.get("harness_error")}))
+        sys.exit(0)
+    if program.get("cross"):
+        return replay_cross(path, program)
     from sim import runner, tape
 
     check = runner.load_check(program["property"])
@@ -69,6 +80,74 @@ def main():
         sys.exit(0)
     print("NOT-REPRODUCED wanted=%s got=%s" % (want.get("signature"), sigs))
     sys.exit(2 if want else (1 if sigs else 0))
+
+
+def _fresh_out(path):
+    """Per-op output digests of the program executed ALONE in a fresh interpreter."""
+    import os
+    import subprocess
+
+    env = dict(os.environ)
+    env["PYTHONHASHSEED"] = "4242"
+    r = subprocess.run([sys.executable, "-m", "sim.replay", path, "--emit-out"], capture_output=True, text=True, env=env, timeout=3600)
+    for line in r.stdout.splitlines():
+        if line.startswith("OUT-DIGESTS "):
+            return json.loads(line[len("OUT-DIGESTS "):])
+    raise RuntimeError("fresh interpreter gave no digests: " + (r.stdout + r.stderr)[-800:])
+
+
+def _cross_compare(path, program):
+    from sim import runner
+
+    check = runner.load_check(program["property"])
+    fresh = _fresh_out(path)
+    pre = program["cross"]["prelude"]
+    for sd in pre["seeds"]:
+        runner.run_program(check.generate(sd, pre.get("tier", "quick")), check)
+    res = runner.run_program(program, check)
+    a, b = fresh.get("out") or [], res.get("op_out_digests") or []
+    if fresh.get("plan") != res.get("plan_digest"):
+        return None, "plans differ (harness nondeterminism?)", res
+    for i, (x, y) in enumerate(zip(a, b)):
+        if x != y:
+            return i, "op #%d (%s) gives different output after %d earlier run(s) in the same process than alone in a fresh interpreter" % (i, program["ops"][i].get("op"), len(pre["seeds"])), res
+    return None, "outputs equal", res
+
+
+def replay_cross(path, program):
+    idx, why, res = _cross_compare(path, program)
+    print("replay(cross-process): property=%s seed=%s prelude=%d" % (program["property"], program.get("seed"), len(program["cross"]["prelude"]["seeds"])))
+    if idx is not None and idx == (program.get("violation") or {}).get("op_index", idx):
+        print("  violation: %s :: %s" % (program["violation"]["signature"], why))
+        print("REPRODUCED signature=%s digest_match=True" % program["violation"]["signature"])
+        sys.exit(1)
+    print("NOT-REPRODUCED (%s)" % why)
+    sys.exit(2)
+
+
+def make_cross(prop, seed, tier, prelude_seeds, out):
+    """Build + verify a cross-process replay file: program of `seed`, preceded by `prelude_seeds`."""
+    import warnings
+
+    warnings.filterwarnings("ignore")
+    from sim import runner, tape
+
+    check = runner.load_check(prop)
+    program = check.generate(int(seed), tier)
+    program["cross"] = {"prelude": {"seeds": [int(x) for x in prelude_seeds.split(",") if x], "tier": tier}}
+    program["violation"] = {"oracle": prop + ".cross-process", "signature": "%s:cross-process:outputs-depend-on-process-history" % prop, "detail": "", "event_digest": None}
+    with open(out, "w") as f:
+        f.write(tape.jdump(program))
+    idx, why, res = _cross_compare(out, program)
+    if idx is None:
+        print("CROSS-NOT-REPRODUCED " + why)
+        sys.exit(2)
+    program["violation"]["detail"] = why
+    program["violation"]["op_index"] = idx
+    with open(out, "w") as f:
+        f.write(tape.jdump(program))
+    print("CROSS-WRITTEN " + why)
+    sys.exit(1)
 
 
 if __name__ == "__main__":
